@@ -122,6 +122,8 @@ def gen_mono_consts():
     loops = bool(re.search(r"\bfor\b[^{]*MAX_MONO_ROUNDS", mono)) and bool(re.search(r"\.instantiate\s*\(", mono))
     rw = fn_body(code, "rewrite_call_sites", [r"Callee::Named\(", r"edits|mangled"])
     per_site = bool(re.search(r"infer_type_args|_for_call\s*\(", rw))
+    infer_body = fn_body(code, "infer_type_args", [r"\.zip\(", r"type_params", r"resolved"])
+    skips_env = "__env" in infer_body
     b = lambda x: "true" if x else "false"
     out = [extract.HEADER.format(src=src), "From Coq Require Import NArith.\n",
            f"Definition MAX_MONO_ROUNDS : N := {v}%N.\n",
@@ -143,7 +145,9 @@ def gen_mono_consts():
            f"Definition STRUCTINIT_RENAMED : bool := {b(rename)}.\n",
            "(* monomorphize repeats instantiate + collect over new instances; call sites are rewritten per site *)\n",
            f"Definition MONO_ROUNDS_LOOP : bool := {b(loops)}.\n",
-           f"Definition REWRITE_PER_CALL_SITE : bool := {b(per_site)}.\n"]
+           f"Definition REWRITE_PER_CALL_SITE : bool := {b(per_site)}.\n",
+           "(* infer_type_args leaves the closure environment parameter out of the parameter/argument pairing *)\n",
+           f"Definition INFER_SKIPS_ENV : bool := {b(skips_env)}.\n"]
     return extract.write_if_changed("MonoConsts.v", "".join(out))
 
 
